@@ -74,6 +74,7 @@ func constIndexTables(fn *ssa.Function) map[string]byte {
 
 func runC03(c *core.Ctx, r *core.Reporter) {
 	c03fname(c, r)
+	c03symbol(c, r)
 	m := buildReaderModel(c)
 	if m == nil || m.initial == "" {
 		r.Undecided("C03.sym", "reader model", "-", "the reader's dispatch switch or mode tables were not recognised")
@@ -449,6 +450,40 @@ func c03sym(c *core.Ctx, r *core.Reporter, m *readerModel) {
 
 	}
 	checkTable("", pipe, mark, c.Pos(fnObj.Pos()))
+	// Exceptions coded in Symbol.Readably: a byte the table marks, compared with a constant in the function, may be
+	// written bare under a condition (repairs 4919295/476bcdd: a slash in a name without digits anywhere, an
+	// ampersand as the first character). Each exception is held to what the reader accepts in that position, and an
+	// exception the rule has not been told about is reported.
+	conditional := map[byte]string{'/': "anywhere", '&': "first"}
+	for _, b := range comparedByteConsts(c.SSAFunc(fnObj)) {
+		if pipe[b] != mark {
+			continue // not marked: the table decides, judged above
+		}
+		key := fmt.Sprintf("exception byte %s", quoteByte(b))
+		kind, known := conditional[b]
+		if !known {
+			r.Violate(rule, key, c.Pos(fnObj.Pos()), "Symbol.Readably compares the name's bytes with this marked byte: an exception from quoting that has not been confirmed against the reader")
+			continue
+		}
+		n1, ok1 := m.step(m.initial, b, 0)
+		startOK := false
+		if ok1 {
+			for _, x := range n1 {
+				if x == tokenMode {
+					startOK = true
+				}
+			}
+		}
+		n2, ok2 := m.step(tokenMode, b, 0)
+		contOK := ok2 && len(n2) == 1 && n2[0] == tokenMode
+		switch kind {
+		case "first":
+			ok := startOK && firstOnlyGuard(c.SSAFunc(fnObj), b)
+			r.Decide(ok, rule, key, c.Pos(fnObj.Pos()), fmt.Sprintf("written bare only as the first byte of a name (the exception is conjoined with a test of the position against 0: %v); the reader accepts it as the first byte of a token: %v", firstOnlyGuard(c.SSAFunc(fnObj), b), startOK))
+		default:
+			r.Decide(startOK && contOK, rule, key, c.Pos(fnObj.Pos()), fmt.Sprintf("may be written bare anywhere in a name; the reader accepts it as first byte: %v, as later byte: %v", startOK, contOK))
+		}
+	}
 	// copies of the quoting table elsewhere (same role by content: a 256-entry constant that marks blank, parentheses,
 	// double quote and | with one marker byte): each is held to the same rule (a copy may quote more, never less)
 	for _, fn := range c.ModuleFuncs() {
@@ -810,4 +845,85 @@ func c03fname(c *core.Ctx, r *core.Reporter) {
 		ok := strings.EqualFold(b.CreatorName, b.Name)
 		r.Decide(ok, rule, b.Key(), c.Pos(b.Pos), fmt.Sprintf("creator builds the call object with Name %q; registered as %q", b.CreatorName, b.Name))
 	}
+}
+
+// comparedByteConsts: the byte constants that fn compares (== or !=) with a byte of a string: the exceptions a
+// table-driven function codes by hand.
+func comparedByteConsts(fn *ssa.Function) []byte {
+	seen := map[byte]bool{}
+	var out []byte
+	for _, b := range fn.Blocks {
+		for _, in := range b.Instrs {
+			bo, ok := in.(*ssa.BinOp)
+			if !ok || (bo.Op != token.EQL && bo.Op != token.NEQ) {
+				continue
+			}
+			for _, pair := range [][2]ssa.Value{{bo.X, bo.Y}, {bo.Y, bo.X}} {
+				k, ok := pair[1].(*ssa.Const)
+				if !ok || k.Value == nil || k.Value.Kind() != constant.Int {
+					continue
+				}
+				bt, ok := pair[0].Type().Underlying().(*types.Basic)
+				if !ok || (bt.Kind() != types.Uint8 && bt.Kind() != types.Int32) {
+					continue
+				}
+				v, _ := constant.Int64Val(k.Value)
+				if v < 0 || v > 255 || seen[byte(v)] {
+					continue
+				}
+				seen[byte(v)] = true
+				out = append(out, byte(v))
+			}
+		}
+	}
+	sort.Slice(out, func(i, j int) bool { return out[i] < out[j] })
+	return out
+}
+
+// firstOnlyGuard: the block that fn reaches when a byte equals k tests an integer against the constant 0 (the
+// position of the byte in the name) before anything else: `if c == k && i == 0`.
+func firstOnlyGuard(fn *ssa.Function, k byte) bool {
+	for _, b := range fn.Blocks {
+		ifi, ok := b.Instrs[len(b.Instrs)-1].(*ssa.If)
+		if !ok {
+			continue
+		}
+		bo, ok := ifi.Cond.(*ssa.BinOp)
+		if !ok || bo.Op != token.EQL {
+			continue
+		}
+		cst, ok := bo.Y.(*ssa.Const)
+		if !ok || cst.Value == nil || cst.Value.Kind() != constant.Int {
+			continue
+		}
+		if v, _ := constant.Int64Val(cst.Value); v != int64(k) {
+			continue
+		}
+		if bt, ok := bo.X.Type().Underlying().(*types.Basic); !ok || bt.Kind() != types.Uint8 {
+			continue
+		}
+		// true successor: its condition is `i == 0`
+		t := b.Succs[0]
+		if len(t.Instrs) == 0 {
+			return false
+		}
+		ti, ok := t.Instrs[len(t.Instrs)-1].(*ssa.If)
+		if !ok {
+			return false
+		}
+		tb, ok := ti.Cond.(*ssa.BinOp)
+		if !ok || tb.Op != token.EQL {
+			return false
+		}
+		z, ok := tb.Y.(*ssa.Const)
+		if !ok || z.Value == nil || z.Value.Kind() != constant.Int {
+			return false
+		}
+		zv, _ := constant.Int64Val(z.Value)
+		if bt, ok := tb.X.Type().Underlying().(*types.Basic); !ok || bt.Kind() != types.Int || zv != 0 {
+			return false
+		}
+		return true
+	}
+	return false
 }
